@@ -527,7 +527,15 @@ def run_rot(c):
         if c["kind"] == "quarter":
             names = f.mesh.region.dims
             a1, a2 = [(1, 2), (2, 0), (0, 1)][c["ax"]]
-            st, lat = attempt(lambda: f.rotate90(names[a1], names[a2], k=c["k"]))
+            # the lattice rotation of C12 is taken on the same data stored as float64: Field.rotate90 negates
+            # components in the storage dtype, which wraps around for UNSIGNED integer fields (e.g. uint8: -2 ->
+            # 254; a C12 matter, recorded in obs as rotate90_unsigned_wrap and reported, not a C18 alarm)
+            ff = build(dict(fc, dtype="float64", dtype_explicit=True))
+            st, lat = attempt(lambda: ff.rotate90(names[a1], names[a2], k=c["k"]))
+            if str(before.dtype).startswith("uint"):
+                st_u, lat_u = attempt(lambda: f.rotate90(names[a1], names[a2], k=c["k"]))
+                rec["rotate90_unsigned_wrap"] = bool(st_u == "ok" and st == "ok" and
+                                                     not np.array_equal(lat_u.array.astype(float), lat.array))
             if st == "ok":
                 if ([int(x) for x in lat.mesh.n] != on
                         or np.abs(np.asarray(lat.mesh.region.pmin) - opmin).max() > 1e-8 * cscale
@@ -679,6 +687,8 @@ def stats(records):
             continue
         if r["kind"] == "badmethod":
             continue
+        if r.get("rotate90_unsigned_wrap"):
+            out["rotate90_unsigned_wrap_cases"] = out.get("rotate90_unsigned_wrap_cases", 0) + 1
         if r["kind"] == "complex":
             out.setdefault("complex", []).append(r.get("obs"))
             continue
